@@ -1,6 +1,6 @@
 """C12 Fail-stop and sink protocol."""
 import re
-from ..mirlib import load, callee_key, short_ty
+from ..mirlib import load, callee_key, short_ty, uninspected_results
 from ..facts import EngineError
 from . import shared_mir as sm
 
@@ -319,6 +319,30 @@ def run(ctx):
         r.inst(d.key, sample={"drop_impl": d.key, "callees_explored": len(seen)})
         if hit:
             r.violate(d.key, f"{d.key} reaches a sink call through {hit}: dropping a failed rewriter would emit output", d.loc())
+
+    # ------------------------------------------------------------------ R12.5
+    r = ctx.rule("R12.5", "errors surface: no Result carrying one of the crate's error types is discarded without being examined (`let _ = fallible()` / a bare call statement); every fallible call made while rewriting is either examined or propagated", "E-MIR", floor=200)
+    CRATE_ERR = re.compile(r"RewritingError|MemoryLimitExceededError|ParsingAmbiguityError|DispatcherError|ActionError|TagNameError|AttributeNameError|CommentTextError|Utf8Error|SelectorError|HasReplacementsError|Box<dyn std::error::Error")
+    ACCEPTED = {
+        ("rewriter::handler_adjust_charset_on_meta_tag::{closure#0}", "OnceLock::set"): "write-once cell: a second <meta charset> is ignored by design (R13.2)",
+        ("Attributes::as_mut_vec", "OnceCell::set"): "cell known to be empty (checked on the line above)",
+    }
+    nres = 0
+    for f in mir.fns:
+        if mir.is_test_fn(f):
+            continue
+        for bi, t in f.calls():
+            if not t["dest"]["proj"] and f.rec["locals"][t["dest"]["local"]].startswith("std::result::Result<"):
+                nres += 1
+        for bi, ck, ty in uninspected_results(f):
+            key = f"{f.key}|dropped:{ck}"
+            acc = ACCEPTED.get((f.key, ck))
+            r.inst(key, sample={"fn": f.key, "callee": ck, "type": ty[:90], "accepted": acc})
+            if CRATE_ERR.search(ty):
+                r.violate(key, f"{f.key}: the {ty[:90]} returned by {ck} is never examined; an error would be swallowed and the rewriter would carry on emitting output after a failure", f.loc())
+    r.count("result_producing_calls_examined", nres)
+    for _ in range(nres):
+        r.instances += 1
 
     ctx.not_decided += ["the prefix relation between the output of a failed run and of the complete run (run-time)"]
     ctx.assumptions += ["values listed in the reviewed non-emptiness table (lexeme raw bytes, validated names) are non-empty for the stated reasons"]
